@@ -253,8 +253,11 @@ CONFIG = {
     "C12": {
         "rule": BUF_MODEL + "non-trivial = a Close launched while another op on the handle was in flight or uncommitted reads existed AND >=2 handles closed in non-creation order; distinct = hash of the executed op trace. " + CHAN_MODEL + WAITCOND_RULE +
                 " The goroutine-leak oracles of the Exclusive, context-combinator, Workers, Worker, ExponentialRetry and LinearAttempt engines (see C09/C10, C16, C14, C17, C18, C20) "
-                "are run under this property as well: after every handle is closed / context cancelled / call returned, the bubble must hold no other goroutine.",
+                "are run under this property as well: after every handle is closed / context cancelled / call returned, the bubble must hold no other goroutine. "
+                "conslin (see C02) runs with a concurrent Close of the shared consumer: Close must return (once nothing is uncommitted), Done closed, Diff unregistered; a wedged program is a violation.",
         "jobs": [buffree("C12", 12000, 600000), bufstep("C12", 24000, 800000), chanstep("C12", 12000, 400000), waitcond("C12", 8000, 300000),
+                 {"name": "conslin_close", "test": "TestConsLin", "checks": {"quick": 24000, "thorough": 800000}, "shards": {"quick": 4, "thorough": 8},
+                  "env": {"VKIT_PROFILE": "C12"}, "stall_sig": "C12/stall"},
                  # the goroutine-leak oracles of the engines written for the other goroutine-starting APIs
                  dict(exclstep("C12", 6000, 200000), name="leak_exclusive"),
                  leakjob("leak_context", "TestC16Context", 8000, 300000, "C16"),
